@@ -936,6 +936,73 @@ pub fn run_c11(ctx: &Ctx, st: &mut Local) {
         e.bound = "all byte strings of length <= 2; every proper prefix of valid frames; every single-byte substitution in the first 18 bytes of each frame (judged only where zstd itself rejects the input)".into();
         e.exhaustive = true;
     }
+    // large stream-free files whose expanded size lies around a power of two (frame / buffer size thresholds);
+    // last, because freeing 64 MiB blocks raises glibc's mmap threshold and makes the many 1 MiB calloc calls of
+    // the other engines several times slower
+    let name3 = "E14zbig";
+    if ctx.engine_on(name3) {
+        let ks: Vec<u32> = if ctx.quick() { vec![16, 22, 26] } else { (16..=27).collect() };
+        let kinds: &[usize] = if ctx.quick() { &[0] } else { &[0, 1] };
+        let mut idx = 0u64;
+        for &k in &ks {
+            for &kind in kinds {
+                for n in (1usize << k) - 8..=(1usize << k) + 1 {
+                    let i = idx;
+                    idx += 1;
+                    count(ctx, name3, st, i, true);
+                    if !ctx.take(name3, i) {
+                        continue;
+                    }
+                    let f: Vec<u8> = if kind == 0 { vec![0u8; n] } else { b"record 0001: the quick brown fox jumps over;\n".iter().cycle().take(n).cloned().collect() };
+                    st.sample(name3, || format!("#{} {} bytes of {}", i, n, if kind == 0 { "zeros" } else { "one repeated 45-byte record" }));
+                    ctx.begin(name3, i, 600_000);
+                    let size = match caught(|| s.expand(&f)) {
+                        Ok(Ok(e)) => e.len(),
+                        _ => {
+                            ctx.end();
+                            st.outcome(name3, "expand-fails(C01)");
+                            continue;
+                        }
+                    };
+                    let z = match caught(|| s.compress_zstd(&f)) {
+                        Ok(Ok(z)) => z,
+                        other => {
+                            ctx.end();
+                            st.violation(ctx.viol(name3, i, "compress-zstd-fails", None, format!("{} bytes: {:?}", n, other.map(|r| r.map(|v| v.len()))), &[]));
+                            continue;
+                        }
+                    };
+                    for cap in [size - 1, size, size + 1] {
+                        let r = caught(|| s.decompress_zstd(&z, cap));
+                        match r {
+                            Err(p) => st.violation(ctx.viol(name3, i, "panic", Some(p.loc.clone()), format!("{} byte file, decompress_zstd(capacity {}) panicked: {}", n, cap, p.msg), &[])),
+                            Ok(Ok(b)) => {
+                                if cap < size {
+                                    st.violation(ctx.viol(name3, i, "ok-below-capacity", None, format!("{} byte file: capacity {} < expanded size {} but Ok({} bytes)", n, cap, size, b.len()), &[]));
+                                } else if b != f {
+                                    st.violation(ctx.viol(name3, i, "wrong-data", None, format!("{} byte file, capacity {}: returned {} bytes that differ from the file", n, cap, b.len()), &[]));
+                                } else {
+                                    st.outcome(name3, "ok-at-or-above-size");
+                                }
+                            }
+                            Ok(Err(e)) => {
+                                if cap >= size {
+                                    st.violation(ctx.viol(name3, i, "err-with-sufficient-capacity", None,
+                                        format!("{} byte file: capacity {} >= expanded size {} but Err: {}", n, cap, size, first_line(&e.msg)), &[]));
+                                } else {
+                                    st.outcome(name3, "err-below-size");
+                                }
+                            }
+                        }
+                    }
+                    ctx.end();
+                }
+            }
+        }
+        let e = st.eng(name3);
+        e.bound = format!("stream-free files of 2^k - 8 ..= 2^k + 1 bytes for k in {:?} ({}), capacities size - 1, size, size + 1", ks, if ctx.quick() { "zeros" } else { "zeros; one repeated record" });
+        e.exhaustive = true;
+    }
 }
 
 /// does libzstd (called directly) decode this input as a complete frame sequence?
